@@ -97,6 +97,7 @@ type exec struct {
 	notes    []string
 	trace    []step
 	stalled  bool
+	probing  bool // every request of the program has finished; the accounts are being probed
 	fails    []failure
 	nacc     int
 	both     int
@@ -434,7 +435,7 @@ func (e *exec) oracleStep(a act) {
 		}
 	}
 	// progress: a request still waiting must conflict with a request that owns its accounts now
-	if a.K == "start" || a.K == "release" || a.K == "abort" {
+	if !e.probing && (a.K == "start" || a.K == "release" || a.K == "abort") {
 		for w, rs := range e.reqs {
 			if (rs.phase == phEnq || rs.phase == phDone) && !rs.granted {
 				blocked := false
@@ -519,6 +520,7 @@ func execute(nacc int, prog []reqSpec, choose chooser) outcome {
 	}
 	// probes: with every request finished, each account must be free (a write lock on it alone is granted at once)
 	out.free = true
+	e.probing = true
 	if !e.stalled {
 		for a := 0; a < nacc; a++ {
 			k := len(e.prog)
@@ -690,8 +692,41 @@ func (rn *runner) record(o outcome) {
 	if o.both > 0 {
 		r.Count("select-with-both-channels-ready")
 	}
+	var queue []int // waiting requests in arrival order, from the observed events
 	for _, s := range o.trace {
 		r.Count("action:" + s.A.K)
+		if s.A.K == "start" && s.Obs == "OQueued" {
+			queue = append(queue, s.A.I)
+		}
+		if len(s.Grants) > 0 {
+			skipped := false
+			var rest []int
+			for _, w := range queue {
+				g := false
+				for _, x := range s.Grants {
+					g = g || x == w
+				}
+				if g && len(rest) > 0 {
+					skipped = true
+				}
+				if !g {
+					rest = append(rest, w)
+				}
+			}
+			queue = rest
+			if skipped {
+				r.Count("pass-granted-a-waiter-behind-a-skipped-one")
+			}
+		}
+		if s.A.K == "abort" {
+			var rest []int
+			for _, w := range queue {
+				if w != s.A.I {
+					rest = append(rest, w)
+				}
+			}
+			queue = rest
+		}
 		if len(s.Grants) > 0 {
 			r.Count(fmt.Sprintf("grants-in-one-pass:%d", len(s.Grants)))
 		}
@@ -815,6 +850,10 @@ func curated() (progs [][]reqSpec, naccs []int) {
 	add(2, w(0, 1), w(0), w(1))
 	add(2, w(0), pre(w(0)), rd(0, 0))
 	add(2, rd(0, 0), w(0), rd(0))
+	add(2, w(0), w(1), w(0), w(1))
+	add(2, w(0), rd(1), w(0), w(1))
+	add(2, rd(0), w(1), w(0), rd(1))
+	add(3, w(0, 1), w(2), w(0), rw([]int{1}, []int{2}))
 	return
 }
 
@@ -840,7 +879,7 @@ func main() {
 		r.Finish()
 		return
 	}
-	dfsLimit, nRandProg, perProg := 450, 70, 90
+	dfsLimit, nRandProg, perProg := 450, 220, 60
 	if r.Thorough() {
 		dfsLimit, nRandProg, perProg = 60000, 1500, 250
 	}
@@ -857,10 +896,7 @@ func main() {
 	g := vx.NewRng(r.Seed)
 	for i := 0; i < nRandProg && rn.stalls < 3; i++ {
 		nacc := 1 + g.Intn(3)
-		n := 2 + g.Intn(3)
-		if r.Thorough() && g.Chance(1, 4) {
-			n = 5
-		}
+		n := 2 + g.Intn(4)
 		var prog []reqSpec
 		for j := 0; j < n; j++ {
 			prog = append(prog, genReq(g, nacc))
